@@ -301,7 +301,46 @@ func c08TransportContract(c *Ctx) {
 			}
 		}
 	}
-	c.Check(good, rule, "LegacyPKT.ReadPacket copy", lg.Pos(), "returns a copy of the buffer that was read into", "the packet returned is not a copy of the bytes just read")
+	if !good {
+		// or: the bytes just read are returned in place, in a buffer allocated by this very call
+		for _, ci := range callsIn(lg) {
+			call, isCall := ci.(*ssa.Call)
+			if !isCall || !call.Call.IsInvoke() || call.Call.Method.Name() != "Read" {
+				continue
+			}
+			rb := strip(call.Call.Args[0])
+			local := false
+			switch b := rb.(type) {
+			case *ssa.MakeSlice:
+				local = !inCycle(b.Block())
+			case *ssa.Slice:
+				if al, ok := b.X.(*ssa.Alloc); ok && al.Heap && !inCycle(al.Block()) && b.Low == nil {
+					local = true
+				}
+			}
+			if !local {
+				continue
+			}
+			all := true
+			some := false
+			for _, r := range returnsOf(lg) {
+				pv := strip(unspill(r.Results[1]))
+				if isNil(pv) {
+					continue
+				}
+				sl, ok := pv.(*ssa.Slice)
+				if ok && sl.X == rb && sl.Low == nil && dominatesInstr(call, sl) {
+					some = true
+				} else if pv == rb && dominatesInstr(call, r) {
+					some = true
+				} else {
+					all = false
+				}
+			}
+			good = all && some
+		}
+	}
+	c.Check(good, rule, "LegacyPKT.ReadPacket copy", lg.Pos(), "returns the bytes just read: a copy of the buffer that was read into, or that buffer itself when this call allocated it", "the packet returned is not a copy of the bytes just read")
 }
 
 // headerTests: readHeader decides "incomplete" three times: fewer bytes than a header, a declared
@@ -342,20 +381,30 @@ func headerTests(c *Ctx, rule string) {
 			if k, isC := constInt(y); isC {
 				kind = fmt.Sprintf("len(data) vs %d", k)
 				n++
-				c.Check(op == token.LSS && k == 8 || op == token.LEQ && k == 7, rule, "readHeader "+kind, ifi.Pos(), "fewer than 8 bytes is 'header incomplete'", "the header-length test is not len(data) < 8: a complete header-only packet (8 bytes) is taken for a fragment, glued to the next read, and the packet after it is lost")
+				c.Check(op == token.LSS && k == 8 || op == token.LEQ && k == 7, rule, "readHeader "+kind, bo.Pos(), "fewer than 8 bytes is 'header incomplete'", "the header-length test is not len(data) < 8: a complete header-only packet (8 bytes) is taken for a fragment, glued to the next read, and the packet after it is lost")
 				continue
 			}
 			// len(data) vs size
 			kind = "len(data) vs size"
 			n++
-			c.Check(op == token.LSS, rule, "readHeader "+kind, ifi.Pos(), "fewer bytes than declared is 'incomplete'", "the completeness test is not len(data) < size: a packet that arrived exactly whole is taken for a fragment")
+			c.Check(op == token.LSS, rule, "readHeader "+kind, bo.Pos(), "fewer bytes than declared is 'incomplete'", "the completeness test is not len(data) < size: a packet that arrived exactly whole is taken for a fragment")
 			continue
+		}
+		if k, isC := constInt(x); isC && !isLenData(y) {
+			// K < size / K <= size: an upper bound on the declared size. The largest packet of the
+			// protocol is a DATA packet with a full 16-bit payload: 8 (header) + 2 (length) + 65535
+			if _, isInt := y.Type().Underlying().(*types.Basic); isInt && k > 8 {
+				const maxLegal = 8 + 2 + 65535
+				kind = fmt.Sprintf("size above %d", k)
+				c.Check(op == token.LSS && k >= maxLegal || op == token.LEQ && k > maxLegal, rule, "readHeader upper bound", bo.Pos(), "an upper bound on the declared size admits the largest DATA packet (65545 bytes)", fmt.Sprintf("readHeader refuses a declared size above %d, but a DATA packet with a full 16-bit payload has 65545 bytes: that packet and the stream after it are never relayed", k))
+				continue
+			}
 		}
 		if k, isC := constInt(y); isC && !isLenData(x) {
 			if _, isInt := x.Type().Underlying().(*types.Basic); isInt {
 				kind = fmt.Sprintf("size vs %d", k)
 				n++
-				c.Check(op == token.LSS && k == 8 || op == token.LEQ && k == 7, rule, "readHeader "+kind, ifi.Pos(), "a declared size below 8 is invalid", "the size test is not size < 8: a header-only packet (size 8) is refused")
+				c.Check(op == token.LSS && k == 8 || op == token.LEQ && k == 7, rule, "readHeader "+kind, bo.Pos(), "a declared size below 8 is invalid", "the size test is not size < 8: a header-only packet (size 8) is refused")
 			}
 		}
 	}
